@@ -321,6 +321,7 @@ pub struct Report {
     notes: Vec<String>,
     extra: BTreeMap<String, Value>,
     inconclusive: Option<String>,
+    level: &'static str,
 }
 
 pub type ReplayFn = dyn Fn(&str, &Value) -> Result<(), String> + Sync;
@@ -338,7 +339,12 @@ impl Report {
             notes: vec![],
             extra: BTreeMap::new(),
             inconclusive: None,
+            level: "exploration",
         }
+    }
+
+    pub fn level(&mut self, level: &'static str) {
+        self.level = level;
     }
 
     /// merge worker accumulators into one subcheck record
@@ -492,7 +498,7 @@ impl Report {
             "property_id": self.id,
             "tier": self.tier.name(),
             "seed": self.seed as i64,
-            "level": "exploration",
+            "level": self.level,
             "coverage": coverage,
             "assumptions": self.assumptions,
             "wall_s": self.start.elapsed().as_secs_f64(),
